@@ -58,6 +58,17 @@ func tq(t types.Type) string {
 	return types.TypeString(t, pkgLabel)
 }
 
+// oneofGetForms: the accepted shapes of "the member's value if this member is set (typed-nil wrapper = unset), else z".
+func oneofGetForms(O, W, v, z string) []string {
+	test := "%v, %ok := " + O + ".(*" + W + "); (%ok && (%v != nil))"
+	return []string{
+		"if (" + O + " == nil) {return " + z + "} else if " + test + " {return " + v + "} else {return " + z + "}",
+		// a nil interface fails the assertion, so the first arm is implied
+		"if " + test + " {return " + v + "}; return " + z,
+		"if " + test + " {return " + v + "} else {return " + z + "}",
+	}
+}
+
 // kinds table ---------------------------------------------------------------
 
 func valueCtor(k protoreflect.Kind) string {
@@ -228,13 +239,17 @@ func expectFor(g *model.GenPkg, f *model.Field) (accExpect, error) {
 		T := f.WrapperField.Type()
 		F := f.GoName
 		// a typed-nil wrapper counts as unset (as in protobuf-go's own oneof reflection)
-		e.has = []string{"if (" + O + " == nil) {return false} else if %v, %ok := " + O + ".(*" + W + "); (%ok && (%v != nil)) {return true} else {return false}"}
+		e.has = []string{"if (" + O + " == nil) {return false} else if %v, %ok := " + O + ".(*" + W + "); (%ok && (%v != nil)) {return true} else {return false}",
+			// the same decision without the branches (a nil interface fails the assertion, so the first arm is implied)
+			"%t1, %t2 := " + O + ".(*" + W + "); return (%t2 && (%t1 != nil))",
+			"if %v, %ok := " + O + ".(*" + W + "); (%ok && (%v != nil)) {return true}; return false",
+			"if %v, %ok := " + O + ".(*" + W + "); (%ok && (%v != nil)) {return true} else {return false}"}
 		e.clearBug = O + " = nil"
 		e.clear = []string{"if _, %ok := " + O + ".(*" + W + "); %ok {" + O + " = nil}"}
 		if k == protoreflect.MessageKind {
 			MT := tq(T.(*types.Pointer).Elem())
 			z := "protoreflect.ValueOfMessage(*" + MT + "(nil).ProtoReflect())"
-			e.get = []string{"if (" + O + " == nil) {return " + z + "} else if %v, %ok := " + O + ".(*" + W + "); (%ok && (%v != nil)) {return protoreflect.ValueOfMessage(%v." + F + ".ProtoReflect())} else {return " + z + "}"}
+			e.get = oneofGetForms(O, W, "protoreflect.ValueOfMessage(%v."+F+".ProtoReflect())", z)
 			e.set = cross(O+" = &"+W+"{"+F+": ", unwrapV(k, "$2", T), "}")
 			fresh := "%t1 := &" + MT + "{}; " + O + " = &" + W + "{" + F + ": %t1}; return protoreflect.ValueOfMessage(%t1.ProtoReflect())"
 			fresh2 := "%t2 := &" + MT + "{}; " + O + " = &" + W + "{" + F + ": %t2}; return protoreflect.ValueOfMessage(%t2.ProtoReflect())"
@@ -245,13 +260,13 @@ func expectFor(g *model.GenPkg, f *model.Field) (accExpect, error) {
 				zv := wrapV(k, z)
 				if k == protoreflect.EnumKind {
 					zv = "protoreflect.ValueOfEnum(" + z + ")"
-					e.get = append(e.get, "if ("+O+" == nil) {return "+zv+"} else if %v, %ok := "+O+".(*"+W+"); (%ok && (%v != nil)) {return "+wrapV(k, "%v."+F)+"} else {return "+zv+"}")
+					e.get = append(e.get, oneofGetForms(O, W, wrapV(k, "%v."+F), zv)...)
 					zv2 := "protoreflect.ValueOfEnum(protoreflect.EnumNumber(" + z + "))"
-					e.get = append(e.get, "if ("+O+" == nil) {return "+zv2+"} else if %v, %ok := "+O+".(*"+W+"); (%ok && (%v != nil)) {return "+wrapV(k, "%v."+F)+"} else {return "+zv2+"}")
+					e.get = append(e.get, oneofGetForms(O, W, wrapV(k, "%v."+F), zv2)...)
 					e.newField = append(e.newField, "return "+zv, "return "+zv2)
 					continue
 				}
-				e.get = append(e.get, "if ("+O+" == nil) {return "+zv+"} else if %v, %ok := "+O+".(*"+W+"); (%ok && (%v != nil)) {return "+wrapV(k, "%v."+F)+"} else {return "+zv+"}")
+				e.get = append(e.get, oneofGetForms(O, W, wrapV(k, "%v."+F), zv)...)
 				e.newField = append(e.newField, "return "+zv)
 			}
 			e.set = cross(O+" = &"+W+"{"+F+": ", unwrapV(k, "$2", T), "}")
@@ -325,6 +340,16 @@ func RunAcc(c *core.Ctx) {
 				}
 				sw := nameSwitch(fd)
 				if sw == nil {
+					// a message without fields needs no switch: whatever descriptor is passed, the accessor panics
+					if len(m.Fields) == 0 {
+						body := fd.Body.List
+						cn0 := newCanon(g.Info, fd)
+						if len(body) > 0 && cn0.stmts(body[:1]) == "if (x == nil) {x = new("+tq(m.Fast)+")}" {
+							body = body[1:]
+						}
+						c.Check(alwaysPanics(&ast.BlockStmt{List: body}), "ACC.arms", con, "message has no fields: every call panics", "message has no fields but the accessor does not panic for every descriptor", pos(c, g, fd.Pos()), src)
+						continue
+					}
 					c.Undec("ACC.arms", con, "no switch on the field's full name", pos(c, g, fd.Pos()), src)
 					continue
 				}
@@ -390,7 +415,7 @@ func RunAcc(c *core.Ctx) {
 				}
 			}
 			runRange(c, g, m, fdVars)
-			runWhichOneof(c, g, m)
+			runWhichOneof(c, g, m, fdVars)
 		}
 		runViews(c, g)
 	}
@@ -608,7 +633,7 @@ func clip(s string, n int) string {
 	return s
 }
 
-func runWhichOneof(c *core.Ctx, g *model.GenPkg, m *model.Msg) {
+func runWhichOneof(c *core.Ctx, g *model.GenPkg, m *model.Msg, fdVars map[types.Object]string) {
 	src := g.Source
 	fd := m.Methods["WhichOneof"]
 	if fd == nil {
@@ -617,6 +642,15 @@ func runWhichOneof(c *core.Ctx, g *model.GenPkg, m *model.Msg) {
 	}
 	sw := nameSwitch(fd)
 	if sw == nil {
+		if len(m.Oneofs) == 0 {
+			body := fd.Body.List
+			cn0 := newCanon(g.Info, fd)
+			if len(body) > 0 && cn0.stmts(body[:1]) == "if (x == nil) {x = new("+tq(m.Fast)+")}" {
+				body = body[1:]
+			}
+			c.Check(alwaysPanics(&ast.BlockStmt{List: body}), "ACC.whichoneof", m.Q()+".WhichOneof arms", "message has no oneofs: every call panics", "message has no oneofs but WhichOneof does not panic for every descriptor", pos(c, g, fd.Pos()), src)
+			return
+		}
 		c.Undec("ACC.whichoneof", m.Q()+".WhichOneof", "no switch on the oneof's full name", pos(c, g, fd.Pos()), src)
 		return
 	}
@@ -634,8 +668,21 @@ func runWhichOneof(c *core.Ctx, g *model.GenPkg, m *model.Msg) {
 		got := cn.stmts(cc.Body)
 		O := "x." + o.GoName
 		var as []string
+		pkgPrefix := ""
+		if p := string(m.Desc.ParentFile().Package()); p != "" {
+			pkgPrefix = p + "."
+		}
 		for _, f := range o.Members {
-			as = append(as, "case *"+tq(f.Wrapper)+": if (%w == nil) {return nil}; return x.Descriptor().Fields().ByName(\""+string(f.Desc.Name())+"\")")
+			byName := "x.Descriptor().Fields().ByName(\"" + string(f.Desc.Name()) + "\")"
+			// the package-level descriptor variable of the field (bound by name in init, COH.md) is the same descriptor
+			rel := strings.TrimPrefix(string(f.Desc.FullName()), pkgPrefix)
+			for ob, pth := range fdVars {
+				if pth == rel {
+					got = strings.ReplaceAll(got, "return "+ob.Name()+"}", "return "+byName+"}")
+					got = strings.ReplaceAll(got, "return "+ob.Name()+" |", "return "+byName+" |")
+				}
+			}
+			as = append(as, "case *"+tq(f.Wrapper)+": if (%w == nil) {return nil}; return "+byName)
 		}
 		want := "if (" + O + " == nil) {return nil}; typeswitch %w := " + O + ".(type) {" + strings.Join(as, " | ") + "}"
 		c.Check(got == want && cn.err == "", "ACC.whichoneof", con, "nil when unset, else the descriptor of the member whose wrapper is held", fmt.Sprintf("arm does: %s ; expected: %s", clip(got, 400), clip(want, 400)), pos(c, g, cc.Pos()), src)
